@@ -502,35 +502,21 @@ func c15RandVal(r *rand.Rand, depthOK bool) string {
 		}
 		return "Lf64[" + strings.Join(elems, ",") + "]"
 	default:
+		ints := r.Intn(2) == 0
 		for i := range elems {
 			m := r.Intn(3)
 			inner := make([]string, m)
-			if r.Intn(2) == 0 {
-				for j := range inner {
+			for j := range inner {
+				if ints {
 					inner[j] = strings.TrimPrefix(c15RandInt(r, "i"), "i:")
-				}
-				elems[i] = "[" + strings.Join(inner, ",") + "]"
-			} else {
-				for j := range inner {
+				} else {
 					inner[j] = encName(c15RandString(r))
 				}
-				elems[i] = "[" + strings.Join(inner, ",") + "]"
 			}
+			elems[i] = "[" + strings.Join(inner, ",") + "]"
 		}
-		// all inner lists of one kind
-		isInt := true
-		for _, e := range elems {
-			if strings.ContainsAny(e, "%abcdefghijklmnopqrstuvwxyzABCDEFGHIJKLMNOPQRSTUVWXYZ_+*/<>=.:^~@#$&?!\\") {
-				isInt = false
-			}
-		}
-		if isInt {
+		if ints {
 			return "LLint[" + strings.Join(elems, ",") + "]"
-		}
-		for i, e := range elems {
-			if e != "[]" && !strings.ContainsAny(e, "%abcdefghijklmnopqrstuvwxyzABCDEFGHIJKLMNOPQRSTUVWXYZ_+*/<>=.:^~@#$&?!\\") {
-				elems[i] = "[]" // keep the slice homogeneous
-			}
 		}
 		return "LLstr[" + strings.Join(elems, ",") + "]"
 	}
@@ -609,6 +595,9 @@ func genC15Args(r *rand.Rand, n int, tier string) []string {
 		f := pick(r, flags)
 		nph := 0
 		toks := c15RandTemplate(r, 2, &nph)
+		for try := 0; nph == 0 && try < 3; try++ { // mostly templates with at least one placeholder
+			toks = c15RandTemplate(r, 2, &nph)
+		}
 		nargs := nph
 		if r.Intn(8) == 0 { // count mismatch
 			nargs = nph + r.Intn(3) - 1
@@ -833,7 +822,8 @@ func c15ScanTerm(r *rand.Rand, depth int) string {
 		return pick(r, []string{"C1:$chars A", "C1:$codes A"}) + encName(s)
 	default:
 		// a list of single-character atoms / of codes built cell by cell (NOT string-backed)
-		s := pick(r, []string{"a", "ab", "xyz"})
+		// (letters disjoint from the string-backed lists above: the model tells the two kinds apart by value)
+		s := pick(r, []string{"p", "pq", "qrs"})
 		var elems []string
 		codes := r.Intn(2) == 0
 		for _, c := range s {
@@ -903,7 +893,7 @@ func c15ScanFor(r *rand.Rand, d string) string {
 		case 2:
 			return pick(r, []string{"C1:$chars A", "C1:$codes A"}) + encName(pick(r, []string{"a", "abc", "hi there", "é日", "x", "a\"b"}))
 		default:
-			return c15WireList([]string{"Ah", "Ai"}, "A%5b%5d")
+			return c15WireList([]string{"Ap", "Aq"}, "A%5b%5d")
 		}
 	case "bool":
 		return pick(r, []string{"Atrue", "Afalse"})
